@@ -19,7 +19,7 @@ from harness import mdibkit as k  # noqa: E402
 CA = pm_types.ContextAssociation
 ASSOC_POOL = (CA.ASSOCIATED, CA.DISASSOCIATED, CA.NO_ASSOCIATION, CA.PRE_ASSOCIATION)
 
-OBS = ('metrics_by_handle', 'alert_by_handle', 'component_by_handle', 'operation_by_handle', 'context_by_handle',
+OBS = ('metrics_by_handle', 'waveform_by_handle', 'alert_by_handle', 'component_by_handle', 'operation_by_handle', 'context_by_handle',
        'new_descriptors_by_handle', 'updated_descriptors_by_handle', 'deleted_descriptors_by_handle')
 
 
@@ -114,8 +114,9 @@ def _changed_states(cap, start=0):
 def mirror_state_tx(kind: int, dv: int, sv: int, mv: int, csv: int, val: str, flag: bool, sel: int) -> str:
     """
     One state transaction of the given kind (0 metric, 1 two metrics in two MDS, 2 alert, 3 component, 4 operational,
-    5 new context state, 6 update of an existing context state, 7 update two context states of one descriptor, 8 set_location).
-    pre: 0 <= kind <= 8
+    5 new context state, 6 update of an existing context state, 7 update two context states of one descriptor, 8 set_location,
+    9 real-time sample array (concrete Decimal samples, symbolic counters and sample count selector)).
+    pre: 0 <= kind <= 9
     pre: dv >= 0
     pre: sv >= 0
     pre: mv >= 0
@@ -126,8 +127,8 @@ def mirror_state_tx(kind: int, dv: int, sv: int, mv: int, csv: int, val: str, fl
     """
     orc = Oracle()
     try:
-        target = {0: 'm0', 1: 'm0', 2: 'ac0', 3: 'vmd0', 4: 'op0'}.get(kind, 'm0')
-        pm, cap, cm = _pair(dv, sv, mv, csv, target, two_mds=(kind == 1), operations=True)
+        target = {0: 'm0', 1: 'm0', 2: 'ac0', 3: 'vmd0', 4: 'op0', 9: 'rt0'}.get(kind, 'm0')
+        pm, cap, cm = _pair(dv, sv, mv, csv, target, two_mds=(kind == 1), operations=True, rt=(kind == 9))
         notes = Notes(cm)
         expected = {}
         if kind == 0 or kind == 1:
@@ -180,13 +181,24 @@ def mirror_state_tx(kind: int, dv: int, sv: int, mv: int, csv: int, val: str, fl
                 st1 = tr.get_context_state('lcs1')
                 st1.LocationDetail.Bed = val
             expected['context_by_handle'] = ['lcs0', 'lcs1']
-        else:
+        elif kind == 8:
             pm.xtra.set_location(SdcLocation(fac='f', poc='p', bed='b' + str(sel)))
             expected['context_by_handle'] = None   # handles are generated: compared against the report instead
+        else:
+            from decimal import Decimal
+            with pm.rt_sample_state_transaction() as tr:
+                st = tr.get_state('rt0')
+                st.mk_metric_value()
+                st.MetricValue.Samples = list(pick(sel, ((), (Decimal('1.5'),), (Decimal('1'), Decimal('2')), (Decimal('0'),) * 3)))
+                st.MetricValue.DeterminationTime = 1700000001.0
+                st.ActivationState = pm_types.ComponentActivation.ON if flag else pm_types.ComponentActivation.OFF
+            expected['waveform_by_handle'] = ['rt0']
         orc.check(len(cap.sent) >= 1, 'no-report-sent')
         _deliver_all(cap, cm)
         _compare(pm, cm, orc, 'after')
         rep = _changed_states(cap)
+        if kind == 9:
+            orc.check(notes.flat('waveform_by_handle') == ['rt0'], 'notification-mismatch:waveform_by_handle')
         for name, fam in (('metrics_by_handle', 'metric'), ('alert_by_handle', 'alert'), ('component_by_handle', 'component'),
                           ('operation_by_handle', 'operational'), ('context_by_handle', 'context')):
             want = expected.get(name)
